@@ -15,8 +15,9 @@ Kinds == {"apply", "apply", "batch", "compact", "restart", "interrupt"}
 
 \* one request: first its kind (uniformly among the kinds that have instances), then one instance - so that a
 \* kind with many instances (config publishes) does not crowd out the others.  RandomElement is TLC's.
+\* (Pick takes a state-dependent argument: TLC evaluates a constant-level definition once and keeps the value)
 ReqKinds == {r.t : r \in Requests}
-Pick == LET t == RandomElement(ReqKinds) IN RandomElement({r \in Requests : r.t = t})
+Pick(n) == LET t == RandomElement(ReqKinds) IN RandomElement({r \in Requests : r.t = t /\ n = n})
 
 SimInit == Init /\ pending = "none"
 
@@ -25,8 +26,8 @@ SimNext ==
        \* (the last step of every generated behaviour is a restart: one successor, one export)
        /\ \E k \in (IF ops = MaxOps - 1 THEN {"restart"} ELSE {"apply", "batch", "compact", "restart", "interrupt"}) : pending' = k
        /\ UNCHANGED vars
-    \/ /\ pending = "apply" /\ pending' = "none" /\ Apply(Pick)
-    \/ /\ pending = "batch" /\ pending' = "none" /\ ApplyBatch(Pick, Pick)
+    \/ /\ pending = "apply" /\ pending' = "none" /\ Apply(Pick(ops))
+    \/ /\ pending = "batch" /\ pending' = "none" /\ ApplyBatch(Pick(ops), Pick(ops + 1))
     \/ /\ pending = "compact" /\ pending' = "none" /\ Compact
     \/ /\ pending = "restart" /\ pending' = "none" /\ Restart
     \/ /\ pending = "interrupt" /\ pending' = "none" /\ InterruptSnap
